@@ -24,7 +24,7 @@ MANIFEST = dict(
     category='model_checking', design_ref='DESIGN.md §3 C04, §2.5',
     engine='E1-history',
     technique='explicit-state model checking: BFS closure of the add/remove state graph on the real database; per-state scoped-transcript equality with the reference model and per-edge non-interference of unchanged selections',
-    text='The state graph of C05 (17 add/remove events over base, second version with identical ids, extension, extension of extension, dependent, unrelated lexicon sharing forms and ILIs) is closed under a quotient key on the real SQLite database. In every state, for every Wordnet selection of a menu (each single lexicon with expand default and disabled, base+extension families, both versions together, lang=en/es, default mode) the complete public-API transcript (words, forms, tags, pronunciations, senses, navigation, relations, members, ILIs) must equal the transcript the reference model computes for exactly that scope and may mention only entities of the selection (restricted) or of the entity\'s own extension family (default mode). Along every transition of the graph, every selection whose resolved lexicon set and expand set are unchanged must report an identical transcript - this covers additions and removals of unrelated lexicons and of unselected extensions of selected lexicons.',
+    text='The state graph of C05 (17 add/remove events over base, second version with identical ids, extension, extension of extension, dependent, unrelated lexicon sharing forms and ILIs) is closed (BFS to a fixpoint) on the real SQLite database under an abstraction key (quick: installed lexicons in rowid order + ILI-index flag; thorough: additionally the value sets of the shared lookup tables). In every state, for every Wordnet selection of a menu (each single lexicon with expand default and disabled, base+extension families, both versions together, lang=en/es, default mode) the complete public-API transcript (words, forms, tags, pronunciations, senses, navigation, relations, members, ILIs) must equal the transcript the reference model computes for exactly that scope and may mention only entities of the selection (restricted) or of the entity\'s own extension family (default mode). Along every transition of the graph, every selection whose resolved lexicon set and expand set are unchanged must report an identical transcript - this covers additions and removals of unrelated lexicons and of unselected extensions of selected lexicons.',
     note='Expanded (ILI-borrowed) relations are compared differentially here and against a model in C12. Quotient soundness as for C05.',
 )
 
@@ -206,7 +206,7 @@ def edge_check(stats, annot):
 def run(tier, seed, jobs=None):
     t0 = time.time()
     plans = ([(False, 'coarse', None, None), (True, 'coarse', None, None)] if tier == 'quick' else
-             [(False, 'quotient', None, 300000), (True, 'quotient', None, 300000)])
+             [(False, 'medium', None, 400000), (True, 'medium', None, 400000)])
     runs, allV, vcount = [], [], {}
     compared = 0
     for annot, mode, depth, cap in plans:
